@@ -25,8 +25,58 @@ def leaf_gradient_check(model, C, D, classes, rs):
     for k in range(out.shape[1]):
         g, = torch.autograd.grad(out[0, k], z, retain_graph=True)
         tot = g[0].reshape(-1, C, D, D).sum(dim=0) if g[0].dim() == 4 else g[0].sum(dim=0)
-        worst = max(worst, float((tot - 1.0).abs().max().detach()))
+        dev = float((tot - 1.0).abs().max().detach())
+        worst = dev if (dev != dev or dev > worst) else worst          # NaN propagates
     return worst
+
+
+def randomize(model):
+    """arbitrary ("trained") parameter values; the leaf scales stay positive (a negative scale makes every density NaN, which the
+    layer silently treats as a missing input)"""
+    for prm in model.parameters():
+        prm.data.normal_()
+    sc = model.base_layer.scale
+    sc.data = 0.3 + 1.5 * torch.rand_like(sc.data)
+    return model
+
+
+def single_entry_marginals(ctx, model, C, D, classes, rs, rep):
+    """with a single observed entry (channel c of pixel (i,j)) the class output is, by smoothness and decomposability, the mixture
+    sum_b pi_b(i,j) N(x; loc[b,c,i,j], scale[b,c,i,j]) of that pixel's leaves, where pi_b(i,j) = d out / d leaf-log-density at the
+    all-missing input. Checked in float64 at ordinary values and far in the tails (log-densities of -1000 must stay -1000)."""
+    import copy
+    m = copy.deepcopy(model).double()
+    nanx = torch.full((1, C, D, D), float('nan'), dtype=torch.float64)
+    z = m.base_layer(nanx).detach().requires_grad_(True)
+    y = z
+    for layer in m.layers:
+        y = layer(y)
+    out = m.root_layer(y)
+    loc, scale = m.base_layer.loc.detach(), m.base_layer.scale.detach()
+    for k in range(out.shape[1]):
+        g, = torch.autograd.grad(out[0, k], z, retain_graph=True)
+        pi = g[0].detach()                               # (n_batch, D, D)
+        for _ in range(3):
+            c, i, j = int(rs.randint(C)), int(rs.randint(D)), int(rs.randint(D))
+            for xv in (float(rs.randn()), 6.5, float(rs.choice([25.0, -30.0, 40.0]))):
+                X = nanx.clone()
+                X[0, c, i, j] = xv
+                with torch.no_grad():
+                    got = float(m(X)[0, k])
+                terms = []
+                for b in range(pi.shape[0]):
+                    if float(pi[b, i, j]) <= 0:
+                        continue
+                    mu, sg = float(loc[b, c, i, j]), float(scale[b, c, i, j])
+                    terms.append(math.log(float(pi[b, i, j])) - 0.5 * ((xv - mu) / sg) ** 2 - math.log(sg) - 0.5 * math.log(2 * math.pi))
+                mx = max(terms)
+                ref = mx + math.log(sum(math.exp(t - mx) for t in terms))
+                ctx.count('single-entry-marginals')
+                if not (abs(got - ref) <= 1e-5 + 1e-6 * abs(ref)):
+                    ctx.violation('c17-single-entry-marginal', f'with only channel {c} of pixel ({i},{j}) observed at {xv!r}, class {k} has log-density {got!r}, but the mixture of '
+                                                               f'that pixel\'s leaves with the weights the network induces gives {ref!r}', replay=dict(rep, entry=[c, i, j], value=xv))
+                    return False
+    return True
 
 
 def impl_oracle(ctx, C, D, p, dw, classes, rs, rep):
@@ -37,8 +87,7 @@ def impl_oracle(ctx, C, D, p, dw, classes, rs, rep):
     except Exception:
         return True
     model.eval()
-    for prm in model.parameters():
-        prm.data.normal_()
+    randomize(model)
     try:
         with torch.no_grad():
             z = model(torch.full((1, C, D, D), float('nan')))
@@ -90,8 +139,7 @@ def run(ctx):
             ctx.count('constructor-rejects')
             continue
         model.eval()
-        for prm in model.parameters():
-            prm.data.normal_()
+        randomize(model)
         try:
             with torch.no_grad():
                 z = model(torch.full((1, C, D, D), float('nan')))
@@ -100,8 +148,10 @@ def run(ctx):
                 continue
             worst = leaf_gradient_check(model, C, D, classes, rs)
             ctx.count('leaf-usage-checks')
-            if worst > 1e-3:
+            if not (worst <= 1e-3):
                 ctx.violation('c17-pixel-usage', f'some pixel is not used exactly once by the induced sub-circuits: sum of leaf gradients deviates from 1 by {worst:.4f}', replay=rep)
+                continue
+            if not single_entry_marginals(ctx, model, C, D, classes, rs, rep):
                 continue
             with torch.no_grad():
                 x = torch.tensor(rs.randn(3, C, D, D)).float()
@@ -156,8 +206,7 @@ def replay(rep):
     model = DgcSpn((r['C'], r['D'], r['D']), out_classes=r['classes'], n_batch=r.get('n_batch', 2), sum_channels=r.get('sum_channels', 2),
                    depthwise=r['depthwise'], n_pooling=r['n_pooling'])
     model.eval()
-    for prm in model.parameters():
-        prm.data.normal_()
+    randomize(model)
     with torch.no_grad():
         z = model(torch.full((1, r['C'], r['D'], r['D']), float('nan')))
     print('all-missing log-probability', z.tolist())
